@@ -143,6 +143,17 @@ claim('C35',
       'numba compilation trusted (counterexamples replayed on the compiled class). One defect found and fixed (np.Inf).',
       'DESIGN.md 3/C35')
 
+claim('C16',
+      'Bounded symbolic verification: real Taylor3D/Taylor2D arithmetic (sum, difference, negation, scalar / dictionary / matrix product, '
+      'product of expansions, slicing and slice assignment, truncation, reducecoeff/collectcoeff/reduce, separate, constructexpansion) '
+      'executed with one fully symbolic coefficient block; the result, evaluated by the real __call__/powexp on a unisolvent set of '
+      'rational unit vectors, equals the operation applied to the evaluated operands for every radial order (QF_LRA, all coefficient '
+      'values, every allclose stratum of reduce/collect/separate explored).',
+      'One symbolic block per run (other blocks fixed dyadic values; complete for linear/bilinear operations by linearity, for the '
+      'reductions the companions are enumerated); real coefficients in [-1,1]; equality to 1e-8 at the evaluation set; Lmax=4; index '
+      'tables are exercised through these identities, not inspected directly.',
+      'DESIGN.md 3/C16, 2.4')
+
 na('C01', 'exact oracle is an infinite-state pair Markov chain reached through Brillouin-zone quadrature, LAPACK and hyp1f1/expi; '
           'agreement only to integration accuracy: no algebraic statement a solver can decide (DESIGN 5)')
 na('C06', 'identities hold only for the true lattice Green function of the omega0 network (numerical k-space integration); '
